@@ -360,6 +360,8 @@ def other_case(ctx, case, monitors):
     snap = None
     if name in ("fjsp", "jssp") and cfg.get("stepwise"):
         snap = ["reward", "lbs"]
+    if name == "ffsp":
+        snap = ["time_idx", "machine_idx"]  # the clock and the deciding machine as shown to the agent (state before the next action)
     if name == "flp":
         snap = ["distances", "chosen"]
     elif name == "mcp":
@@ -491,6 +493,19 @@ def other_case(ctx, case, monitors):
                 ctx.count("c07_schedules_checked")
                 for rule, info in v:
                     ctx.violation(sig_of(cfg, rule=rule, flatten=cfg["flatten"]), f"invalid flow-shop schedule: {rule}: {info}", dict(row=b, inst=insts[b], actions=acts, schedule=sch))
+                # the schedule must also be the one the ACTIONS describe: a job chosen while the agent was shown clock t and machine m
+                # starts on m at t (the observable state before each action is the reference, not the env's booking code)
+                if not v and ep.states and "time_idx" in ep.td0.keys():
+                    nj = len(sch[0]) - 1
+                    for t_, a_ in enumerate(acts):
+                        if a_ >= nj:
+                            continue  # wait
+                        before = ep.td0 if t_ == 0 else ep.states[t_ - 1]
+                        clk, mac = int(before["time_idx"].reshape(B)[b]), int(before["machine_idx"].reshape(B)[b])
+                        ctx.count("c07_ffsp_action_bookings")
+                        if sch[mac][a_] != clk:
+                            ctx.violation(sig_of(cfg, rule="schedule_vs_actions", flatten=cfg["flatten"]), f"step {t_}: job {a_} was chosen at clock {clk} on machine {mac}, the schedule books it at {sch[mac][a_]}", dict(row=b, inst=insts[b], actions=acts, schedule=sch))
+                            break
                 ctx.nontrivial_case(dict(i=insts[b], a=acts))
                 if b == 0:
                     ctx.sample(dict(case=case, actions=acts, makespan=mk))
